@@ -211,8 +211,11 @@ func NdJSON(raw []byte, limit uint32) bool {
 	var l []byte
 	for len(raw) != 0 {
 		l, raw = scanLine(raw)
-		_, inspected, firstToken, _ := json.Parse(json.QueryNone, l)
-		if len(l) != inspected {
+		parsed, inspected, firstToken, _ := json.Parse(json.QueryNone, l)
+		// Lines are complete here (dropLastLine removed a cut one): each must be
+		// a whole JSON value. Being merely the start of one is not enough.
+		blank := firstToken == json.TokInvalid && len(l) == inspected
+		if len(l) != parsed && !blank {
 			return false
 		}
 		if firstToken == json.TokArray || firstToken == json.TokObject {
